@@ -17,10 +17,10 @@ import time
 
 ROOT = os.path.dirname(os.path.abspath(__file__))
 TARGETS = [  # (file under src/, checks that should notice)
-    ("cascade/controller/notify.py", ["C03", "C04"]),
-    ("cascade/controller/act.py", ["C04", "C02"]),
-    ("cascade/scheduler/api.py", ["C03", "C02"]),
-    ("cascade/scheduler/assign.py", ["C03", "C02"]),
+    ("cascade/controller/notify.py", ["C03", "C04", "C01"]),
+    ("cascade/controller/act.py", ["C03", "C04", "C02", "C01"]),
+    ("cascade/scheduler/api.py", ["C03", "C02", "C04"]),
+    ("cascade/scheduler/assign.py", ["C03", "C02", "C04"]),
     ("cascade/executor/comms.py", ["C06"]),
     ("cascade/executor/bridge.py", ["C06", "C05"]),
     ("cascade/executor/executor.py", ["C05", "C06"]),
